@@ -165,8 +165,8 @@ end retype
 theorem xretype_commutes {d : ClassDiagram} (wf : WF d) (c a dt : Nat) (comp : Nat)
     (hok : ∀ kc xa, findClass d c = some kc → kc.findAttr a = some xa → (∀ c' b, xa.kind ≠ .ref c' b) →
       (baseTypeName d.dts dt).isSome = true ∧ ((attrDt d xa).bind (baseTypeName d.dts)).isSome = true) :
-    xsdSpec (applyXEdit (.retypeAttr c a dt) d) comp =
-      specEdit (xresolve d comp (.retypeAttr c a dt)) (xsdSpec d comp) := by
+    xsdSpecChained (applyXEdit (.retypeAttr c a dt) d) comp =
+      specEdit (xresolve d comp (.retypeAttr c a dt)) (xsdSpecChained d comp) := by
   simp only [xresolve]
   cases hc : findClass d c with
   | none =>
@@ -192,8 +192,8 @@ theorem xretype_commutes {d : ClassDiagram} (wf : WF d) (c a dt : Nat) (comp : N
         obtain ⟨ty, hty⟩ := Option.isSome_iff_exists.mp h1
         rw [hty]
         dsimp only
-        have main : xsdSpec (applyXEdit (.retypeAttr c a dt) d) comp =
-            specEdit (XSEdit.retype ((kc.kl, xa.name) :: dependents d c a) ty) (xsdSpec d comp) := by
+        have main : xsdSpecChained (applyXEdit (.retypeAttr c a dt) d) comp =
+            specEdit (XSEdit.retype ((kc.kl, xa.name) :: dependents d c a) ty) (xsdSpecChained d comp) := by
           have happ : applyXEdit (.retypeAttr c a dt) d = { d with classes := d.classes.map (rtG c a dt) } := rfl
           rw [happ]
           apply xspec_ext
@@ -305,8 +305,8 @@ theorem ad_attrDt (y : Attr) (hy : y.kind ≠ .ref c x.id) :
 
 include wf in
 theorem xaddAttr_commutes (c : Nat) (x : Attr) (comp : Nat) (fresh : FreshAttr d c x) :
-    xsdSpec (applyXEdit (.addAttr c x) d) comp =
-      specEdit (xresolve d comp (.addAttr c x)) (xsdSpec d comp) := by
+    xsdSpecChained (applyXEdit (.addAttr c x) d) comp =
+      specEdit (xresolve d comp (.addAttr c x)) (xsdSpecChained d comp) := by
   simp only [xresolve]
   cases hc : findClass d c with
   | none =>
@@ -341,8 +341,8 @@ theorem xaddAttr_commutes (c : Nat) (x : Attr) (comp : Nat) (fresh : FreshAttr d
         have hne : (k.id == c) = false := by simp [h]
         simp only [hne, Bool.false_eq_true, if_false, hat, XClass.mk.injEq, true_and]
         exact filterMap_congr' (hxa k hk)
-    have hclasses : (xsdSpec { d with classes := d.classes.map (adG c x) } comp).classes =
-        (xsdSpec d comp).classes.map (fun s =>
+    have hclasses : (xsdSpecChained { d with classes := d.classes.map (adG c x) } comp).classes =
+        (xsdSpecChained d comp).classes.map (fun s =>
           if s.kl == kc.kl then { s with attrs := s.attrs ++ (xattr d x).toList } else s) := by
       show ((d.classes.map (adG c x)).filter (fun k => containedIn d.containers comp k.parent)).map
           (xclassOf { d with classes := d.classes.map (adG c x) }) = _
@@ -363,8 +363,8 @@ theorem xaddAttr_commutes (c : Nat) (x : Attr) (comp : Nat) (fresh : FreshAttr d
       · rfl
       · rfl
       · rw [hclasses, hx]
-        show _ = (xsdSpec d comp).classes
-        conv => rhs; rw [← List.map_id (xsdSpec d comp).classes]
+        show _ = (xsdSpecChained d comp).classes
+        conv => rhs; rw [← List.map_id (xsdSpecChained d comp).classes]
         apply List.map_congr_left
         intro s _
         simp
@@ -464,7 +464,7 @@ theorem en_xattr (a : Attr) : xattr { d with dts := d.dts.map (enG t F) } a = xa
   rw [funext (en_baseTypeName d.dts)]
 
 theorem en_classes (comp : Nat) :
-    (xsdSpec { d with dts := d.dts.map (enG t F) } comp).classes = (xsdSpec d comp).classes := by
+    (xsdSpecChained { d with dts := d.dts.map (enG t F) } comp).classes = (xsdSpecChained d comp).classes := by
   show (d.classes.filter (fun k => containedIn d.containers comp k.parent)).map
       (xclassOf { d with dts := d.dts.map (enG t F) }) = _
   apply List.map_congr_left
@@ -495,13 +495,13 @@ theorem findDt_id {dts : List DataType} {i : Nat} {x : DataType} (h : findDt dts
 
 /-- both enumerator edits: the enumerators of data type `t` become `F es` -/
 theorem enumEdit_commutes (xwf : XWF d) (comp : Nat) :
-    xsdSpec (mapDt d t (fun x => { x with kind := x.kind.mapEnum F })) comp =
+    xsdSpecChained (mapDt d t (fun x => { x with kind := x.kind.mapEnum F })) comp =
       specEdit (match findDt d.dts t with
         | some x =>
           match x.kind with
           | .enum es => .setEnum x.name (F es)
           | _ => .nop
-        | none => .nop) (xsdSpec d comp) := by
+        | none => .nop) (xsdSpecChained d comp) := by
   cases hf : findDt d.dts t with
   | none =>
     have : mapDt d t (fun x => { x with kind := x.kind.mapEnum F }) = d := by
@@ -549,7 +549,7 @@ theorem enumEdit_commutes (xwf : XWF d) (comp : Nat) :
       · show ((d.dts.map (enG t F)).filter (fun x => isGlobal d.containers x.parent)).filterMap
             (xtypeOf (d.dts.map (enG t F))) ++
           ((d.dts.map (enG t F)).filter (fun x => containedIn d.containers comp x.parent)).filterMap
-            (xtypeOf (d.dts.map (enG t F))) = ((xsdSpec d comp).types).map (XType.setEnum tx.name (F es0))
+            (xtypeOf (d.dts.map (enG t F))) = ((xsdSpecChained d comp).types).map (XType.setEnum tx.name (F es0))
         rw [List.filter_map, List.filter_map, List.filterMap_map, List.filterMap_map]
         have hp1 : ((fun (x : DataType) => isGlobal d.containers x.parent) ∘ enG t F) =
             (fun (x : DataType) => isGlobal d.containers x.parent) := by
@@ -596,11 +596,11 @@ theorem enumEdit_commutes (xwf : XWF d) (comp : Nat) :
       rw [this]; rfl
 
 theorem xaddEnum_commutes (xwf : XWF d) (t : Nat) (name : String) (comp : Nat) :
-    xsdSpec (applyXEdit (.addEnum t name) d) comp = specEdit (xresolve d comp (.addEnum t name)) (xsdSpec d comp) :=
+    xsdSpecChained (applyXEdit (.addEnum t name) d) comp = specEdit (xresolve d comp (.addEnum t name)) (xsdSpecChained d comp) :=
   enumEdit_commutes (F := fun es => es ++ [name]) xwf comp
 
 theorem xpermEnums_commutes (xwf : XWF d) (t : Nat) (perm : List Nat) (comp : Nat) :
-    xsdSpec (applyXEdit (.permEnums t perm) d) comp = specEdit (xresolve d comp (.permEnums t perm)) (xsdSpec d comp) :=
+    xsdSpecChained (applyXEdit (.permEnums t perm) d) comp = specEdit (xresolve d comp (.permEnums t perm)) (xsdSpecChained d comp) :=
   enumEdit_commutes (F := permute perm) xwf comp
 
 end enums
@@ -729,13 +729,13 @@ theorem at_xattr (chain : DtChainOk d.dts) (fr : FreshType d t) {k : Class} (hk 
     exact at_baseTypeName chain fr dt (attrDt_ne_fresh fr hk hy h)
 
 theorem xaddType_commutes (chain : DtChainOk d.dts) (fr : FreshType d t) (comp : Nat) :
-    xsdSpec (applyXEdit (.addType t) d) comp = specEdit (xresolve d comp (.addType t)) (xsdSpec d comp) := by
+    xsdSpecChained (applyXEdit (.addType t) d) comp = specEdit (xresolve d comp (.addType t)) (xsdSpecChained d comp) := by
   have happ : applyXEdit (.addType t) d = { d with dts := d.dts ++ [t] } := rfl
   rw [happ]
   have hxall : ∀ x ∈ d.dts, xtypeOf (d.dts ++ [t]) x = xtypeOf d.dts x :=
     fun x hx => at_xtypeOf x (fr.noBase x hx)
   have hxt : xtypeOf (d.dts ++ [t]) t = xtypeOf d.dts t := at_xtypeOf t fr.noSelf
-  have hclasses : (xsdSpec { d with dts := d.dts ++ [t] } comp).classes = (xsdSpec d comp).classes := by
+  have hclasses : (xsdSpecChained { d with dts := d.dts ++ [t] } comp).classes = (xsdSpecChained d comp).classes := by
     show (d.classes.filter (fun k => containedIn d.containers comp k.parent)).map
         (xclassOf { d with dts := d.dts ++ [t] }) = _
     apply List.map_congr_left
@@ -745,7 +745,7 @@ theorem xaddType_commutes (chain : DtChainOk d.dts) (fr : FreshType d t) (comp :
     apply filterMap_congr'
     intro y hy
     exact at_xattr chain fr (List.mem_filter.mp hk).1 hy
-  have htypes : (xsdSpec { d with dts := d.dts ++ [t] } comp).types =
+  have htypes : (xsdSpecChained { d with dts := d.dts ++ [t] } comp).types =
       ((d.dts.filter (fun x => isGlobal d.containers x.parent)).filterMap (xtypeOf d.dts) ++
         (if isGlobal d.containers t.parent then (xtypeOf d.dts t).toList else [])) ++
       ((d.dts.filter (fun x => containedIn d.containers comp x.parent)).filterMap (xtypeOf d.dts) ++
@@ -776,8 +776,8 @@ theorem xaddType_commutes (chain : DtChainOk d.dts) (fr : FreshType d t) (comp :
     dsimp only
     apply xspec_ext
     · rw [htypes, hxo]
-      show _ = (xsdSpec d comp).types
-      simp [xsdSpec]
+      show _ = (xsdSpecChained d comp).types
+      simp [xsdSpecChained]
     · rfl
     · exact hclasses
   | some x =>
@@ -814,8 +814,8 @@ theorem xaddType_commutes (chain : DtChainOk d.dts) (fr : FreshType d t) (comp :
         simp only [hcf, Bool.false_eq_true, if_false]
         apply xspec_ext
         · rw [htypes, hgf, hcf]
-          show _ = (xsdSpec d comp).types
-          simp [xsdSpec]
+          show _ = (xsdSpecChained d comp).types
+          simp [xsdSpecChained]
         · rfl
         · exact hclasses
 
